@@ -458,7 +458,19 @@ class CppMachine:
                 v = st.fr.vars.get(inner.get('id'))
                 if isinstance(v, tuple) and v[0] == 'obj':
                     return (v[1], v[2])
+            if isinstance(inner, dict) and inner.get('k') == 'un' and inner.get('op') in ('++', '--'):
+                return self.pointer(st, inner)
             raise Unsupported('pointer loaded from memory at %s' % loc_str(e))
+        if k == 'un' and e.get('op') in ('++', '--'):
+            # *--p / *p++ : the pointer local is stepped, the expression is its new (prefix) or old (postfix) value
+            l = strip(e['e'])
+            cur = st.fr.vars.get(l.get('id')) if l.get('k') == 'ref' else None
+            if isinstance(cur, tuple) and cur[0] == 'obj' and (l.get('t') or {}).get('k') == 'ptr':
+                old = (cur[1], cur[2])
+                self.eval(st, e)
+                new = st.fr.vars[l['id']]
+                return old if e.get('post') else (new[1], new[2])
+            raise Unsupported('step of a pointer that is not a local at %s' % loc_str(e))
         if k == 'bin' and e.get('op') in ('+', '-'):
             b = self.pointer(st, e['lhs'])
             i = self.int_const(st, e['rhs'])
